@@ -46,6 +46,17 @@ pub enum AlphaSize {
     Full,
 }
 
+/// groups of filters that differ in meaning but are easily confused by a lossy rendering or a structural shortcut
+/// (name chains vs joined names, grouping, omitted vs zero slice bounds, index chains vs unions vs longer indices)
+pub const CONFUSABLE: [&[&str]; 6] = [
+    &["@.a.b", "@.ab"],
+    &["@.a.b==1", "@.ab==1"],
+    &["(@.x||@.y)&&@.z", "@.x||@.y&&@.z"],
+    &["@[:]", "@[0:0]"],
+    &["@[1][0]", "@[1,0]", "@[10]"],
+    &["@.a==@.b", "@.a!=@.b"],
+];
+
 pub const FILTERS: [&str; 12] = [
     "@..[?@==1]",
     "@.*[?@==1]",
@@ -112,6 +123,13 @@ pub fn alphabet(doc: &Value, size: AlphaSize, max_names: usize, spellings: bool)
             base.push(filter_sel(&format!("@[{}]==1", q)));
         }
     }
+    if size != AlphaSize::Singles {
+        for g in CONFUSABLE {
+            for f in g.iter() {
+                base.push(filter_sel(f));
+            }
+        }
+    }
     let mut actions = vec![];
     for b in &base {
         actions.push(Seg::child(vec![b.clone()]));
@@ -143,6 +161,18 @@ pub fn alphabet(doc: &Value, size: AlphaSize, max_names: usize, spellings: bool)
         for a in &red {
             for b in &red {
                 actions.push(Seg::desc(vec![a.clone(), b.clone()]));
+            }
+        }
+        // two filters of one bracketed selection that are easily confused with each other
+        for g in CONFUSABLE {
+            for a in g.iter() {
+                for b in g.iter() {
+                    if a != b {
+                        actions.push(Seg::child(vec![filter_sel(a), filter_sel(b)]));
+                        actions.push(Seg::desc(vec![filter_sel(a), filter_sel(b)]));
+                        actions.push(Seg::child(vec![filter_sel(a), Sel::Index(0), filter_sel(b)]));
+                    }
+                }
             }
         }
         let triples: Vec<Vec<Sel>> = vec![
